@@ -91,6 +91,9 @@ def report(run, prop, mg, macros, results, kind):
     for r in results:
         if 'error' in r and 'mism' not in r:
             raise Machinery('harness error while replaying %s: %s' % (kind, r['error']))
+        if 'skipped' in r:
+            run.add('skipped_unisolatable_faults')
+            continue
         n += 1
         mm = r.get('mism', {}).get(prop)
         if mm:
@@ -138,9 +141,15 @@ def run_family(run, prop, tier, seed, family):
         over = dict(Ops=META_OPS, InitModes=['r+', 'r'] if prop == 'C11' else ['r+'], MaxRows=2, InitLens=[0, 2],
                     TruncArgs=[0, 1], InitMetas=[{'k1': 0, 'k2': 0}, {'k1': 1, 'k2': 0}, {'k1': 2, 'k2': 1}])
         invs = ['WellFormedArray', 'Model_Array', 'Readme_Current', 'Meta_Model', 'TypeOK']
+    elif family == 'fault':
+        over = dict(Ops=['append', 'truncate'], Faults=True, MaxRows=3, InitLens=[0, 1], TruncArgs=[0, 1, -1],
+                    MaxChunks=2, MaxChunkLen=2)
+        invs = ['WellFormedArray', 'Model_Array', 'AppendKeepsPrefix', 'FailedAppendExact', 'Readme_Current', 'TypeOK']
     r, g = am.run_instance('%s_%s' % (prop, family), invariants=invs, properties=('ReadOnly',), **over)
-    need = ['IA_Call', 'IA_Write', 'IA_EmptyWrite', 'TR_OsTruncate', 'SetItem', 'UL_JsonWrite', 'UL_ReadmeWrite'] \
-        if family == 'data' else ['M_Call', 'M_Write', 'M_Unlink', 'RM_Write', 'M_Remove']
+    need = {'data': ['IA_Call', 'IA_Write', 'IA_EmptyWrite', 'TR_OsTruncate', 'SetItem', 'UL_JsonWrite', 'UL_ReadmeWrite'],
+            'meta': ['M_Call', 'M_Write', 'M_Unlink', 'RM_Write', 'M_Remove'],
+            'fault': ['IA_Call', 'IA_CallBadAppend', 'IA_EmptyRecover', 'IA_RecStart', 'IA_RecTruncate', 'IA_Write',
+                      'IA_EmptyWrite']}[family]
     tlc.check_coverage(r, need, 'MC_%s_%s' % (prop, family))
     run.tlc('Array_%s' % family, r)
     mg = walk.MacroGraph(g, am.quiescent)
